@@ -269,4 +269,19 @@ theorem accept_pending {env : Env} {net : Net} {pid : Nat} {p : Peer} (hi : PInv
   · simp only [slot_update hi hl (p' := { p with conn := ⟨.pending t, Timeout.after env.now sendUs⟩ }) rfl]
     simp
 
+/-! ### a pending peer is silent -/
+
+theorem tick_fresh (env : Env) : Conn6.tick env Conn6.Conn.new = .ok (Conn6.Conn.new, {}) := by
+  simp [Conn6.tick, Conn6.Conn.new, Timeout.triggered]
+
+theorem pending_silent_on_tick {env : Env} {net net' : Net} {r : Ret} {o : Out} {a pid : Nat} {tok : Bool}
+    (hi : PInv net.peers) (hs : slot net.peers a = some (pid, Peer.new a tok))
+    (h : tick env net = .ok (net', r, o)) :
+    slot net'.peers a = some (pid, Peer.new a tok) ∧ o.for a = {} := by
+  obtain ⟨_, _, h3⟩ := tick_sim hi h
+  have := h3 a
+  simp only [refStep, hs, Peer.new, tick_fresh] at this
+  simp only [Except.ok.injEq, Prod.mk.injEq] at this
+  refine ⟨by rw [← this.1]; rfl, by rw [← this.2.2]; simp⟩
+
 end Tw.Net
